@@ -29,7 +29,8 @@ ASSUMPTIONS = [
     "Refusal = any ValueError-family exception (LeaspyInputError is a ValueError); any other exception or a returned object for an invalid graph is a violation.",
     "Determinism is checked against re-insertion orders, shuffled frozenset construction and PYTHONHASHSEED in {0,1,2,3} sub-processes.",
 ]
-REQUIRED_CLASSES = {"valid": 0.0005, "cyclic": 0.02, "diamond": 0.0005, "sampled:deep-chain": 150}
+REQUIRED_CLASSES = {"valid": 0.0005, "cyclic": 0.02, "diamond": 0.0005, "sampled:deep-chain": 150, "sampled:definitions-as-functions": 150,
+                    "sampled:names-equal-up-to-case": 100}
 
 NAME_SETS = {
     "asc": ["a", "b", "c", "d", "e"],
@@ -96,8 +97,38 @@ def _mk_vars(names):
     return {n: IndepVariable() for n in names}
 
 
-def check_graph(col: Collector, nodes, edges, *, keys=None, sub_check="graph", record=True, count=True):
-    """Build the DAG with the real code and compare with the reference. Returns classification."""
+def _mk_fn(params, n_defaults: int, use_partial: bool):
+    """A definition as the user writes it: a function whose keyword-only parameters are variable names. Every keyword-only
+    parameter is a dependency (LinkedVariable: 'keyword arguments matching the variable names'), with or without a default
+    value, also when the default comes from functools.partial."""
+    import functools
+
+    params = list(params)
+    defaulted = set(params[:n_defaults])
+    if use_partial and defaulted:
+        f = eval("lambda *, " + ", ".join(params) + ": 0.0")
+        return functools.partial(f, **{q: 1.0 for q in defaulted})
+    return eval("lambda *, " + ", ".join(q + ("=1.0" if q in defaulted else "") for q in sorted(params, key=lambda q: q in defaulted)) + ": 0.0")
+
+
+def _mk_linked_defs(nodes, anc, variant: int):
+    from leaspy.variables.specs import IndepVariable, LinkedVariable
+
+    defs = {}
+    for i, n in enumerate(nodes):
+        a = sorted(anc.get(n, ()))
+        if not a:
+            defs[n] = IndepVariable()
+        else:
+            k = (variant + i) % 3  # 0: no default, 1: one defaulted parameter, 2: all but one defaulted
+            nd = 0 if k == 0 else (1 if k == 1 else max(0, len(a) - 1))
+            defs[n] = LinkedVariable(_mk_fn(a, nd, use_partial=((variant + i) % 2 == 1)))
+    return defs
+
+
+def check_graph(col: Collector, nodes, edges, *, keys=None, sub_check="graph", record=True, count=True, linked=None):
+    """Build the DAG with the real code and compare with the reference. Returns classification.
+    linked=<int>: the graph is given as definitions (IndepVariable / LinkedVariable over generated functions) to from_dict."""
     from leaspy.variables.dag import VariablesDAG
 
     info = classify(nodes, edges, keys)
@@ -114,7 +145,10 @@ def check_graph(col: Collector, nodes, edges, *, keys=None, sub_check="graph", r
     given = {k: (set(v) if mutable else frozenset(v)) for k, v in anc.items()}
     given_copy = {k: frozenset(v) for k, v in given.items()}
     try:
-        dag = VariablesDAG(_mk_vars(nodes), direct_ancestors=given)
+        if linked is not None:
+            dag = VariablesDAG.from_dict(_mk_linked_defs(nodes, given_copy, linked))
+        else:
+            dag = VariablesDAG(_mk_vars(nodes), direct_ancestors=given)
         if {k: frozenset(v) for k, v in given.items()} != given_copy:
             col.fail(sub_check, "definitions-modified-by-construction", inp, observed={k: sorted(v) for k, v in given.items()},
                      expected={k: sorted(v) for k, v in given_copy.items()})
@@ -227,6 +261,10 @@ def graph_strategy():
         shape = draw(st.sampled_from(["layered", "layered", "chain"]))
         n = draw(st.integers(6, 14)) if shape == "layered" else draw(st.integers(6, 40))
         alphabet = ["v%02d" % i for i in range(60)] + ["A", "b", "Zz", "x_1", "x_10", "x_2", "é", "nll_attach", "0"]
+        naming = draw(st.sampled_from(["plain", "plain", "case-twins"]))
+        if naming == "case-twins":  # names that differ by case only (t / T, xi / Xi / XI): still distinct variables with one fixed order
+            bases = ["t", "x", "xi", "tau", "g", "s", "k", "m", "nu", "rho", "v", "w", "y", "z", "ab", "cd", "ef", "gh"]
+            alphabet = sorted({c for b in bases for c in (b, b.upper(), b.capitalize())})
         names = draw(st.lists(st.sampled_from(alphabet), min_size=n, max_size=n, unique=True))
         # layered DAG along a drawn hidden order
         hidden = draw(st.permutations(names))
@@ -275,7 +313,8 @@ def graph_strategy():
         elif kind == "key-mismatch":
             keys = nodes[:-1] if draw(st.booleans()) else nodes + ["extra_key"]
         order = draw(st.permutations(nodes))
-        return dict(nodes=list(order), edges=[list(e) for e in edges], keys=keys, kind=kind, shape=shape)
+        linked = draw(st.sampled_from([None, None, 0, 1, 2, 3, 4, 5]))
+        return dict(nodes=list(order), edges=[list(e) for e in edges], keys=keys, kind=kind, shape=shape, naming=naming, linked=linked)
 
     return _g()
 
@@ -287,8 +326,19 @@ def body_sampled(col: Collector, case):
         edges_k = [(a, b) for a, b in edges if b in set(keys)]
         info = check_graph(col, nodes, edges_k, keys=keys, sub_check="sampled")
     else:
-        info = check_graph(col, nodes, edges, sub_check="sampled")
+        import keyword
+
+        linked = case.get("linked")
+        if linked is not None and not all(q.isidentifier() and not keyword.iskeyword(q) for q in set(nodes) | {a for a, _ in edges}):
+            linked = None  # a definition written as a function needs identifiers
+        info = check_graph(col, nodes, edges, sub_check="sampled", linked=linked)
     classes = ["sampled:" + case.get("kind", "?"), "valid" if info["valid"] else "invalid"]
+    if keys is None and linked is not None:
+        classes.append("sampled:definitions-as-functions")
+    if case.get("naming") == "case-twins":
+        low = [q.casefold() for q in nodes]
+        if len(set(low)) < len(low):
+            classes.append("sampled:names-equal-up-to-case")
     if case.get("shape") == "chain":
         classes.append("sampled:deep-chain")
     if info["cyclic"]:
